@@ -18,6 +18,7 @@ from ..harness import (rp, ru, rps, rpc, make_pmgr, make_pilot, NullLog,
                        NullProf, RecPublisher)
 
 import radical.pilot.agent.agent_0          as m_agent0     # noqa
+from ..harness import FINAL_STATES
 import radical.pilot.tmgr.scheduler.base    as m_tsched     # noqa
 from   radical.pilot.tmgr.scheduler.round_robin import RoundRobin  # noqa
 
@@ -83,13 +84,15 @@ def gen_history(rng):
             elif kind == 'skip': t = min(c + rng.randint(2, 4), 4); anomalies += 1
             elif kind == 'back': t = max(c - rng.randint(1, 3), 0); anomalies += 1
             else:
-                msg.append([p, rng.choice(rps.FINAL)])
+                msg.append([p, rng.choice(FINAL_STATES)])
                 anomalies += 1
                 continue
             cur[p] = max(c, t)
             msg.append([p, _PORDER[t]])
         msgs.append(msg)
-    return {'pids': pids, 'messages': msgs}, anomalies
+    return {'pids': pids, 'messages': msgs,
+            'cb_style': rng.randint(1, 2 ** 30) if rng.random() < 0.35
+                        else None}, anomalies
 
 
 def run_history(case, res):
@@ -105,6 +108,61 @@ def run_history(case, res):
     for p in pilots.values():
         p.register_callback(lambda ps: seen_obj.append((ps[0].uid,
                                                         ps[0].state)))
+
+    # further callbacks which behave the way application callbacks do: they
+    # raise, or unregister themselves once they saw the state they waited for
+    # (one-shot), or register another callback.  The observers above must be
+    # told the same states nevertheless.
+    style = case.get('cb_style')
+    if style:
+        res.count('histories_with_active_callbacks')
+        import random as _random
+        crng   = _random.Random(style)
+        states = _PORDER[1:] + list(FINAL_STATES)
+
+        def one_shot_mgr(trigger):
+            def cb(pilot, state):
+                if state == trigger:
+                    res.count('one_shot_callbacks_fired')
+                    pm.unregister_callback(cb)
+            pm.register_callback(cb)
+
+        def one_shot_obj(p, trigger):
+            def cb(ps):
+                if ps[0].state == trigger:
+                    res.count('one_shot_callbacks_fired')
+                    p.unregister_callback(cb)
+            p.register_callback(cb)
+
+        def raiser(trigger):
+            def cb(pilot, state):
+                if state == trigger:
+                    res.count('raising_callbacks_fired')
+                    raise RuntimeError('application callback failed')
+            pm.register_callback(cb)
+
+        def spawner(trigger):
+            def late(pilot, state):
+                pass
+            def cb(pilot, state):
+                if state == trigger:
+                    res.count('registering_callbacks_fired')
+                    pm.register_callback(late)
+            pm.register_callback(cb)
+
+        for _ in range(crng.randint(1, 3)):
+            k = crng.choice(['one', 'one', 'oneobj', 'raise', 'spawn'])
+            if   k == 'one'   : one_shot_mgr(crng.choice(states))
+            elif k == 'oneobj': one_shot_obj(pilots[crng.choice(case['pids'])],
+                                             crng.choice(states))
+            elif k == 'raise' : raiser(crng.choice(states))
+            else              : spawner(crng.choice(states))
+        # observers registered AFTER the active ones see what is left over
+        seen_late = list()
+        pm.register_callback(lambda pilot, state: seen_late.append(
+                                                      (pilot.uid, state)))
+    else:
+        seen_late = None
 
     # the client side scheduler keeps its own view of pilot states
     sched = RoundRobin.__new__(RoundRobin)
@@ -131,7 +189,12 @@ def run_history(case, res):
             exc = e          # contradictory final: documented to raise
         except Exception as e:
             exc = e
-            res.violation('pmgr-callback-raised', repr(e),
+            mech = 'pmgr-callback-raised'
+            if style:
+                mech = 'application-callback-aborts-notification'
+            res.violation(mech, '%r escaped the notification handler: the '
+                          'remaining states of this notification are not '
+                          'applied and not announced' % e,
                           {'case': case, 'message_index': mi})
             return
 
@@ -144,10 +207,10 @@ def run_history(case, res):
                 res.violation('callback-for-unknown-pilot', uid, ctx)
                 continue
             prev = announced[uid][-1] if announced[uid] else rps.NEW
-            if prev in rps.FINAL and state not in rps.FINAL:
+            if prev in FINAL_STATES and state not in FINAL_STATES:
                 res.violation('final-left', '%s: %s announced after %s'
                               % (uid, state, prev), ctx)
-            elif prev in rps.FINAL and state != prev and not (
+            elif prev in FINAL_STATES and state != prev and not (
                     prev in (rps.CANCELED, rps.FAILED)):
                 res.violation('final-changed', '%s: %s announced after %s'
                               % (uid, state, prev), ctx)
@@ -161,12 +224,20 @@ def run_history(case, res):
                               % (uid, state, prev), ctx)
             announced[uid].append(state)
 
+        if seen_late is not None:
+            a = [(u, st) for u, st, _ in seen_mgr]
+            if a != seen_late:
+                res.violation('observers-disagree', 'a callback registered '
+                              'first was told %s, one registered later %s'
+                              % (a[-6:], seen_late[-6:]), ctx)
+                return
+
         # single-notification messages are compared with the model exactly
         if len(msg) == 1 and msg[0][0] in pilots:
             p, tgt = msg[0]
             b      = before[p]
-            if b in rps.FINAL:
-                exp = [b] + ([tgt] if tgt in rps.FINAL else [])
+            if b in FINAL_STATES:
+                exp = [b] + ([tgt] if tgt in FINAL_STATES else [])
             elif tgt in (rps.FAILED, rps.CANCELED) or _PV[tgt] >= _PV[b]:
                 exp = [tgt]
             else:
@@ -178,7 +249,7 @@ def run_history(case, res):
         for p in pilots:
             a = pilots[p].state
             b = before[p]
-            if b in rps.FINAL and a not in rps.FINAL:
+            if b in FINAL_STATES and a not in FINAL_STATES:
                 res.violation('final-left', '%s: Pilot.state %s -> %s'
                               % (p, b, a), ctx)
             elif _PV[a] < _PV[b]:
@@ -195,7 +266,7 @@ def run_history(case, res):
             prev = shistory.get(pid)
             now  = info['state']
             if prev is not None:
-                if prev in rps.FINAL and now not in rps.FINAL:
+                if prev in FINAL_STATES and now not in FINAL_STATES:
                     res.violation('sched-final-left', '%s: %s -> %s'
                                   % (pid, prev, now), ctx)
                 elif _PV[now] < _PV[prev]:
@@ -254,7 +325,7 @@ def gen_concurrent(rng):
         if   k == 'inorder': st = _PORDER[1:rng.randint(2, 5)]
         elif k == 'skip'   : st = [_PORDER[rng.randint(2, 4)]]
         elif k == 'late'   : st = [_PORDER[rng.randint(1, 3)]]
-        else               : st = [_PORDER[4], rng.choice(rps.FINAL)]
+        else               : st = [_PORDER[4], rng.choice(FINAL_STATES)]
         streams.append(st)
     return {'streams': streams, 'seed': rng.randint(0, 2 ** 30),
             'kind': 'concurrent'}
@@ -296,7 +367,7 @@ def run_concurrent(case, res):
     prev = rps.NEW
     for thread, state, _ in seen:
         res.count('callbacks_checked')
-        if prev in rps.FINAL and state not in rps.FINAL:
+        if prev in FINAL_STATES and state not in FINAL_STATES:
             res.violation('concurrent/final-left', '%s announced after %s '
                           '(%s)' % (state, prev, seen), ctx)
             break
